@@ -329,6 +329,27 @@ pub fn worker(w: &mut Worker) {
     for s in VSPECIAL {
         vvalues.push(Some(s.to_string()));
     }
+    // every ASCII punctuation character, and the characters of other planes that share the low byte of
+    // one that means something to the scanner, leading / trailing / wrapping words of a value (a value
+    // is data: no character in it quotes, groups, escapes or comments anything, and a spread splits it at
+    // blanks only)
+    {
+        let mut chars: Vec<char> = (0x21u32..0x7f).filter_map(char::from_u32).filter(|c| !c.is_ascii_alphanumeric()).collect();
+        for syntax in [' ', '"', '#', '\\', '$', '%', '{', '}', '\''] {
+            for plane in [0x100u32, 0x2000, 0x2100, 0x3000, 0xff00, 0x1f600] {
+                if let Some(c) = char::from_u32(plane + syntax as u32) {
+                    chars.push(c);
+                }
+            }
+        }
+        for c in chars {
+            for v in [format!("{}a", c), format!("a{}", c), format!("{}a b{}", c, c), format!("x {}a b{} y", c, c), format!("rock {}n roll", c), format!("{}${{w}}{}", c, c)] {
+                if !vvalues.contains(&Some(v.clone())) {
+                    vvalues.push(Some(v));
+                }
+            }
+        }
+    }
 
     for t in &templates {
         for pos in 0..3u8 {
@@ -507,7 +528,7 @@ pub fn crash_sig(_case: &Value, kind: &str) -> String {
     kind.to_string()
 }
 
-pub const RULE: &str = "every template of 1..3 pieces from {a, 'b c', e-acute, ${v}, ${w}, ${u} (undefined), ${a.b}, ${s::e1} (name with '::', a digit and a non-ASCII letter), \\${v}} and the whole-argument forms %{v} %{w} %{u}, in three argument positions (alone, first of two, last of three after a spread), x every value of v (undefined, every string up to the length bound over {a SP \" \\ # $ { } % LF = e-acute TAB CR NBSP}, 9 special values such as '${w}' and '  ') x 8 values of w (only where the argument list mentions them); bound by runner::run_instruction and observed by a capture command; every template also under the empty environment (no variable defined at all); a second family writes the same templates as script text (plain and quoted) and runs them through run_script. Oracle: one-pass reference substitution; spread = space-separated non-empty words. Non-trivial: the argument list mentions v or w. states = distinct (received count, position, kind) classes; transitions = real bindings. Scale cases: a value of 300/70000 (thorough 1000003) characters made of ${v}, %{w}, backslash, '#' and quote text bound alone, embedded and as an array item (must arrive whole and uninterpreted); 300/3000 (thorough 30000) words spread by %{..} and as many arguments written out on one line. Re-binding family: the templates %{w} ${w} bound twice in one run with the variable changed in between by a command writing the variable table directly, by an assignment, by set_by_name, as a for/in loop variable, as a function argument, or removed (6 x 6 values): each binding shows the value of its moment";
+pub const RULE: &str = "every template of 1..3 pieces from {a, 'b c', e-acute, ${v}, ${w}, ${u} (undefined), ${a.b}, ${s::e1} (name with '::', a digit and a non-ASCII letter), \\${v}} and the whole-argument forms %{v} %{w} %{u}, in three argument positions (alone, first of two, last of three after a spread), x every value of v (undefined, every string up to the length bound over {a SP \" \\ # $ { } % LF = e-acute TAB CR NBSP}, 9 special values such as '${w}' and '  ') x 8 values of w (only where the argument list mentions them); bound by runner::run_instruction and observed by a capture command; every template also under the empty environment (no variable defined at all); a second family writes the same templates as script text (plain and quoted) and runs them through run_script. Oracle: one-pass reference substitution; spread = space-separated non-empty words. Non-trivial: the argument list mentions v or w. states = distinct (received count, position, kind) classes; transitions = real bindings. Scale cases: a value of 300/70000 (thorough 1000003) characters made of ${v}, %{w}, backslash, '#' and quote text bound alone, embedded and as an array item (must arrive whole and uninterpreted); 300/3000 (thorough 30000) words spread by %{..} and as many arguments written out on one line. Re-binding family: the templates %{w} ${w} bound twice in one run with the variable changed in between by a command writing the variable table directly, by an assignment, by set_by_name, as a for/in loop variable, as a function argument, or removed (6 x 6 values): each binding shows the value of its moment Punctuation values: every ASCII punctuation character and the low-byte look-alikes of blank, quote, #, backslash, $, %, braces and apostrophe, leading / trailing / wrapping the words of the value (6 shapes each) through every template: a value is data, a spread splits it at blanks only";
 pub const ASSUMPTIONS: &[&str] = &["spread values containing a double quote or '#' are only checked for 'no panic' (their grouping is pinned by the repository's own tests, not by the statement)", "arguments that mix text with %{..} are outside the property's template domain"];
 pub const EXHAUSTIVE: bool = true;
 pub const WALL_CAP_S: (u64, u64) = (50, 1500);
